@@ -19,10 +19,12 @@ def run(ctx):
     if ctx.quick:
         mc_feat.run_shape(ctx, 'C04', 5, 2)
         pipeline.run_corpus(ctx, 220, PREFIXES, seed_offset=4)
+        pipeline.run_large(ctx, PREFIXES, 4, 3, 1)          # beyond small scopes: long cycles, long recordings
     else:
         mc_feat.run_shape(ctx, 'C04', 6, 2)
         mc_feat.run_shape(ctx, 'C04', 7, 1)
         pipeline.run_corpus(ctx, 4000, PREFIXES, seed_offset=4, max_len=2600)
+        pipeline.run_large(ctx, PREFIXES, 4, 12, 6)          # beyond small scopes: long cycles, long recordings
 
 
 def replay(ctx, case):
